@@ -66,6 +66,8 @@ pub fn parse_args() -> Args {
 pub struct Out {
     w: Box<dyn Write>,
     pub n: u64,
+    /// replay: only the case with this id is produced (ids are positions in generation order)
+    pub only: Option<u64>,
 }
 impl Out {
     pub fn new(path: &Option<String>) -> Self {
@@ -73,13 +75,36 @@ impl Out {
             Some(p) => Box::new(std::io::BufWriter::new(std::fs::File::create(p).expect("create out"))),
             None => Box::new(std::io::BufWriter::new(std::io::stdout())),
         };
-        Out { w, n: 0 }
+        Out { w, n: 0, only: None }
+    }
+    /// false when the next case is filtered out by a replay (the generator may then skip running it,
+    /// but must call `skip()` so that ids stay aligned)
+    pub fn wants_next(&self) -> bool {
+        self.only.map_or(true, |o| o == self.n + 1)
+    }
+    pub fn skip(&mut self) {
+        self.n += 1;
     }
     /// One case: `class` is the generator class (used for fingerprints), `input` what the model
     /// consumes, `imp` the canonicalised observation of the real code.
     pub fn case(&mut self, class: &str, input: Value, imp: Value) {
+        if !self.wants_next() {
+            self.n += 1;
+            return;
+        }
         self.n += 1;
         let line = json!({"id": self.n, "class": class, "input": input, "impl": imp});
+        serde_json::to_writer(&mut self.w, &line).unwrap();
+        self.w.write_all(b"\n").unwrap();
+    }
+    /// like `case`, with the generator's own non-triviality verdict
+    pub fn case_nt(&mut self, class: &str, input: Value, imp: Value, nontrivial: bool) {
+        if !self.wants_next() {
+            self.n += 1;
+            return;
+        }
+        self.n += 1;
+        let line = json!({"id": self.n, "class": class, "input": input, "impl": imp, "nontrivial": nontrivial});
         serde_json::to_writer(&mut self.w, &line).unwrap();
         self.w.write_all(b"\n").unwrap();
     }
